@@ -67,7 +67,9 @@ def all_cases(tier):
         for spn, sp in spellings(pat).items():
             for bi in bodies:
                 cases.append(("offset", pat, spn, sp, off, bi, ""))
-                if tier == "thorough" and spn in ("UTC+HHMM", "GMT+HHMM", "+HH:MM", "UTC+HH:MM"):
+                # only the UTC/GMT-prefixed spellings accept trailing text (their table regex ends in '.*');
+                # a bare +HH:MM must end the string ('(.)%s$'), so '+02:00 (CEST)' is not an accepted spelling
+                if tier == "thorough" and spn in ("UTC+HHMM", "GMT+HHMM", "GMT+HH:MM", "UTC+HH:MM"):
                     cases.append(("offset", pat, spn, sp, off, bi, " (CEST)"))
     for name, offs in abbr.items():
         for nm in (name, name.lower()):
